@@ -31,7 +31,7 @@ def perturb(text, rnd):
 
 def check(ctx):
     C.extract(ctx)
-    C.prove(ctx, ["Oq3.Props.C17", "Oq3.Props.C17RenameSym", "Oq3.Props.C17Rename", "Oq3.Props.C17Layout", "Oq3.Props.C17LayoutTrees", "Oq3.Props.C17Lex"])
+    C.prove(ctx, ["Oq3.Props.C17", "Oq3.Props.C17RenameSym", "Oq3.Props.C17Rename", "Oq3.Props.C17Layout", "Oq3.Props.C17LayoutTrees", "Oq3.Props.C17Lex", "Oq3.Props.C17RenameText", "Oq3.Props.C17RenameTextWit"])
     okb, log = C.cargo_build()
     if not okb:
         C.violation(ctx, "harness-build-failed", {"log": log[-3000:]}, no_input=True)
